@@ -84,6 +84,10 @@ impl App for TcpApp {
                     let Some(pkt) = &d.pkt else { continue };
                     if pkt.proto == PROTO_TCP {
                         self.segments += 1;
+                        if let Ok(t) = decode_tcp(&pkt.payload, &Ip::V6(pkt.src), &Ip::V6(pkt.dst)) {
+                            let nf = d.nfrags;
+                            ctx.note(|| format!("      [{}] d{} ({} frame(s)): {}", sd, id, nf, t.seg));
+                        }
                         if d.nfrags > 1 {
                             self.fragmented_segments += 1;
                         }
